@@ -17,6 +17,30 @@ SET_PRIM = f'{B}._arguments_set_value'
 DEL_PRIM = f'{B}._arguments_del_value'
 
 
+# module-level constants that hold a collection of parameter kinds, e.g.
+# _POSITIONAL_KINDS = frozenset({Parameter.POSITIONAL_ONLY, ...}); filled from
+# the analysed tree by register_kind_constants (names bound twice to different
+# collections are dropped)
+KIND_CONSTS: Dict[str, frozenset] = {}
+
+
+def register_kind_constants(project) -> None:
+  KIND_CONSTS.clear()
+  clash = set()
+  for mod in project.modules.values():
+    for name, v in getattr(mod, 'assigns', {}).items():
+      probe = ast.Compare(left=ast.Attribute(value=ast.Name(id='p'), attr='kind'),
+                          ops=[ast.In()], comparators=[v])
+      a = kind_atom(probe)
+      if a is None or not a[0]:
+        continue
+      if name in KIND_CONSTS and KIND_CONSTS[name] != frozenset(a[0]):
+        clash.add(name)
+      KIND_CONSTS[name] = frozenset(a[0])
+  for name in clash:
+    KIND_CONSTS.pop(name, None)
+
+
 def kind_atom(e) -> Optional[Tuple[Set[str], bool]]:
   """`X.kind == P.K` / `X.kind in (P.K1, ..)` -> ({K..}, positive?)."""
   if not (isinstance(e, ast.Compare) and len(e.ops) == 1):
@@ -29,6 +53,14 @@ def kind_atom(e) -> Optional[Tuple[Set[str], bool]]:
   def kind_const(x):
     if isinstance(x, ast.Attribute) and x.attr in KINDS:
       return {x.attr}
+    if isinstance(x, ast.Name) and x.id in KIND_CONSTS:
+      return set(KIND_CONSTS[x.id])
+    if isinstance(x, ast.Attribute) and x.attr in KIND_CONSTS:
+      return set(KIND_CONSTS[x.attr])
+    if isinstance(x, ast.Call) and isinstance(x.func, ast.Name) and (
+        x.func.id in ('frozenset', 'set', 'tuple', 'list')) and len(
+            x.args) == 1 and not x.keywords:
+      return kind_const(x.args[0])
     if isinstance(x, (ast.Tuple, ast.List, ast.Set)):
       out = set()
       for el in x.elts:
@@ -467,57 +499,82 @@ def validate_param_name(ctx: Ctx, rs: RuleSet):
              'reads reject them too', 4)
   f = ctx.func(f'{SI}.validate_param_name')
   g = ctx.cfg(f)
-  for k in ('POSITIONAL_ONLY', 'VAR_POSITIONAL'):
-    ok = False
-    for n in g.nodes():
-      if g.kind[n] != 'if':
+  from fdlstatic import dispatch, roles
+  # the looked-up parameter object: <signature>.parameters.get(name)
+  pvars = roles.assigned_from(f, lambda e: isinstance(e, ast.Call) and isinstance(
+      e.func, ast.Attribute) and e.func.attr == 'get' and unparse(
+          e.func.value).endswith('parameters'))
+  if len(pvars) != 1:
+    raise AnalysisError(f'{f.qualname}: parameter lookup not found')
+  pv = next(iter(pvars))
+
+  def outcomes(kind, has_kw):
+    """Exits reachable for a name whose parameter has `kind` (None: no such
+    parameter) when the callable has / has no **kwargs.  Assigning None to
+    the parameter variable makes the name an unknown one from there on."""
+    def atoms(k):
+      def ev(t, depth=0):
+        if isinstance(t, ast.Attribute) and t.attr == 'has_var_keyword':
+          return has_kw
+        if isinstance(t, ast.Name) and t.id != pv and depth < 3:
+          d = roles.deref(f, t, 1)
+          if d is not t:
+            return dispatch.eval_atoms(d, lambda x: ev(x, depth + 1))
+        if isinstance(t, ast.Name) and t.id == pv:
+          return k is not None  # truthiness of the parameter object
+        v = eval3(t, k, pv)
+        if v is not None and not isinstance(t, (ast.BoolOp, ast.UnaryOp)):
+          return v
+        if kind_atom(t) is not None and k is None:
+          return None
+        return None
+      return ev
+    seen, out = set(), set()
+    stack = [(g.entry, kind)]
+    while stack:
+      n, k = stack.pop()
+      if (n, k) in seen:
         continue
-      ks = kinds_on_branch(g.stmt[n].test, True)
-      if ks is not None and k in ks and len(ks) <= 2 and ks <= {
-          'POSITIONAL_ONLY', 'VAR_POSITIONAL'}:
-        t_succ = [m for m, lab in g.succ[n] if lab == 'true']
-        r = g.reach(t_succ, labels=cfg_lib.NO_EXC)
-        if g.exit not in r and g.raise_exit in r:
-          ok = True
+      seen.add((n, k))
+      if n == g.exit:
+        out.add('return')
+        continue
+      if n == g.raise_exit:
+        out.add('raise')
+        continue
+      st = g.stmt[n]
+      k2 = k
+      if g.kind[n] == 'stmt' and isinstance(st, ast.Assign) and any(
+          isinstance(t, ast.Name) and t.id == pv for t in st.targets):
+        if isinstance(st.value, ast.Constant) and st.value.value is None:
+          k2 = None
+        elif not (isinstance(st.value, ast.Call)):
+          k2 = k  # unknown re-binding: keep (conservative for the checks below)
+      v = dispatch.eval_atoms(st.test, atoms(k)) if g.kind[n] in (
+          'if', 'while') else None
+      for m, lab in g.succ[n]:
+        if lab == 'exc':
+          continue
+        if (v is True and lab == 'false') or (v is False and lab == 'true'):
+          continue
+        stack.append((m, k2))
+    return out
+
+  for k in ('POSITIONAL_ONLY', 'VAR_POSITIONAL'):
+    ok = outcomes(k, True) == {'raise'} and outcomes(k, False) == {'raise'}
     rs.check(ok, rule, f'{f.qualname}:{k}',
              f'a {k} parameter addressed by name always raises',
              ctx.loc(f, f.node))
-  # unknown names: some raising branch is guarded by `not <has var keyword>`
-  ok = False
-  for n in g.nodes():
-    if g.kind[n] != 'if':
-      continue
-    test = g.stmt[n].test
-    mentions = any(isinstance(x, ast.Attribute) and
-                   x.attr in ('has_var_keyword', 'var_keyword_name')
-                   for x in ast.walk(test))
-    none_test = any(isinstance(c, ast.Compare) and isinstance(
-        c.ops[0], ast.Is) and isinstance(c.comparators[0], ast.Constant) and
-                    c.comparators[0].value is None for c in ast.walk(test))
-    if mentions and none_test:
-      t_succ = [m for m, lab in g.succ[n] if lab == 'true']
-      r = g.reach(t_succ, labels=cfg_lib.NO_EXC)
-      if g.exit not in r and g.raise_exit in r:
-        # the condition must require the absence of **kwargs
-        neg = any(isinstance(u, ast.UnaryOp) and isinstance(u.op, ast.Not) and
-                  any(isinstance(x, ast.Attribute) and
-                      x.attr in ('has_var_keyword', 'var_keyword_name')
-                      for x in ast.walk(u.operand)) for u in ast.walk(test))
-        ok = neg
+  ok = outcomes(None, False) == {'raise'} and outcomes(None, True) == {
+      'return'} and all(outcomes(k, h) == {'return'} for k in (
+          'POSITIONAL_OR_KEYWORD', 'KEYWORD_ONLY') for h in (True, False))
   rs.check(ok, rule, f'{f.qualname}:unknown-name',
            'an unknown name (param is None) raises exactly when the callable '
-           'has no **kwargs', ctx.loc(f, f.node))
+           'has no **kwargs; keyword-capable parameters are accepted',
+           ctx.loc(f, f.node))
   # VAR_KEYWORD parameter's own name is treated as unknown
-  ok = False
-  for n in g.nodes():
-    if g.kind[n] == 'if':
-      ks = kinds_on_branch(g.stmt[n].test, True)
-      if ks == {'VAR_KEYWORD'}:
-        for m, lab in g.succ[n]:
-          st = g.stmt[m]
-          if lab == 'true' and isinstance(st, ast.Assign) and isinstance(
-              st.value, ast.Constant) and st.value.value is None:
-            ok = True
+  ok = outcomes('VAR_KEYWORD', True) == {'return'} and outcomes(
+      'VAR_KEYWORD', False) == {'raise'}
   rs.check(ok, rule, f'{f.qualname}:VAR_KEYWORD',
            'the **kwargs parameter\'s own name is handled as an unknown name',
            ctx.loc(f, f.node))
